@@ -194,7 +194,7 @@ impl StarkProof {
             Felt::from_hex(&m.value).map_err(|_| anyhow::anyhow!("Invalid memory value"))?;
         }
         let continuous_page_headers =
-            Self::continuous_page_headers(&public_input.public_memory, z, alpha);
+            Self::continuous_page_headers(&public_input.public_memory, z, alpha)?;
         let main_page = Self::main_page(&public_input.public_memory)?;
         let dynamic_params = public_input.dynamic_params.unwrap_or_default();
         // The verifier reads the dynamic parameters positionally, in key order.
@@ -252,7 +252,7 @@ impl StarkProof {
         public_memory: &[PublicMemoryElement],
         z: BigUint,
         alpha: BigUint,
-    ) -> Vec<(Felt, Felt, Felt, Felt)> {
+    ) -> anyhow::Result<Vec<(Felt, Felt, Felt, Felt)>> {
         let (_pages, page_prods) =
             Self::get_pages_and_products(public_memory, z.clone(), alpha.clone());
 
@@ -273,14 +273,18 @@ impl StarkProof {
             // Ensure the address is correct
             let current_size = data.entry(page_id).or_default().len();
             let expected_address = start_address.get(&page_id).unwrap() + Felt::from(current_size);
-            assert_eq!(addr, expected_address);
+            if addr != expected_address {
+                anyhow::bail!("Non-consecutive addresses in a continuous page");
+            }
 
             data.get_mut(&page_id).unwrap().push(val);
             *size.entry(page_id).or_insert(Felt::ZERO) += Felt::ONE;
         }
 
         let n_pages = size.len() + 1; // +1 because size does not count page 0
-        assert_eq!(page_prods.len(), n_pages);
+        if page_prods.len() != n_pages {
+            anyhow::bail!("Invalid pages");
+        }
 
         let mut headers = Vec::new();
         let mut sorted_keys: Vec<_> = size.keys().collect();
@@ -288,7 +292,9 @@ impl StarkProof {
 
         for (i, page_id) in sorted_keys.into_iter().enumerate() {
             let page_index = i + 1;
-            assert_eq!(Felt::from(page_index), *page_id);
+            if Felt::from(page_index) != *page_id {
+                anyhow::bail!("Page ids are not consecutive");
+            }
             let hash_value = Self::compute_hash_on_elements(data.get(page_id).unwrap());
             let header = (
                 *start_address.get(page_id).unwrap(),
@@ -299,7 +305,7 @@ impl StarkProof {
             headers.push(header);
         }
 
-        headers
+        Ok(headers)
     }
     fn compute_hash_on_elements(data: &[Felt]) -> Felt {
         let hash = data.iter().fold(Felt::ZERO, |acc, value| pedersen_hash(&acc, value));
